@@ -109,11 +109,28 @@ def ok_returns(body, variant="Ok"):
         op = st["rv"]["fields"][0]
         pl = op_place(op)
         split = False
+        # follow plain copies to the local the payload is really assigned in (an inlined helper's return local)
+        hops = 0
+        while pl is not None and not pl["p"] and hops < 6:
+            ds = body.defs().get(pl["l"], [])
+            srcs = {(op_place(d[3]["rv"]["o"]) or {}).get("l") if d[0] == "assign" and d[3]["rv"]["r"] == "use" and op_place(d[3]["rv"]["o"]) is not None and not op_place(d[3]["rv"]["o"])["p"] else None for d in ds}
+            if ds and len(srcs) == 1 and None not in srcs:
+                # one source local (copied once, or once per cloned epilogue of an inlined helper)
+                pl = op_place(ds[0][3]["rv"]["o"])
+                hops += 1
+            else:
+                break
         if pl is not None and not pl["p"]:
             ds = body.defs().get(pl["l"], [])
-            if len(ds) > 1 and all(d[0] == "assign" and d[3]["rv"]["r"] == "agg" and d[3]["rv"].get("kind") == "adt" for d in ds):
+            if len(ds) > 1 and all(d[0] == "assign" for d in ds):
                 for d in ds:
-                    out.append((d[1], {(d[3]["rv"]["adt"], d[3]["rv"].get("variant"))}))
+                    rv = d[3]["rv"]
+                    if rv["r"] == "agg" and rv.get("kind") == "adt":
+                        out.append((d[1], {(rv["adt"], rv.get("variant"))}))
+                    elif rv["r"] == "use":
+                        out.append((d[1], agg_variant(body, rv["o"])))
+                    else:
+                        out.append((d[1], set()))
                 split = True
         if not split:
             out.append((i, agg_variant(body, op)))
@@ -802,6 +819,55 @@ def copy_chain_locals(body, op, depth=0):
 # ------------------------------------------------------------------------------------------
 # constant folding of an operand (for masks written as expressions, e.g. u64::MAX - 1)
 # ------------------------------------------------------------------------------------------
+
+
+def place_origin(body, x, _depth=0):
+    """(base local, tuple of field names) a place / operand ultimately designates, following whole-local copies,
+    references, derefs and the environment of a closure literal expanded in place, but *stopping at the variable
+    itself* (its own definition — a call, an aggregate — is not looked through). Identity of a mutable cell: two places
+    with the same origin are the same storage."""
+    pl = x if ("l" in x and "p" in x) else op_place(x)
+    if pl is None or _depth > 12:
+        return None
+    base = pl["l"]
+    proj = list(pl["p"])
+    while True:
+        defs = body.defs().get(base, [])
+        if len(defs) != 1 or defs[0][0] != "assign" or (1 <= base <= body.arg_count):
+            break
+        rv = defs[0][3]["rv"]
+        if rv["r"] == "use":
+            src = op_place(rv["o"])
+            if src is None:
+                break
+            base, proj = src["l"], list(src["p"]) + proj
+        elif rv["r"] in ("ref", "rawptr"):
+            if not proj or proj[0] != "*":
+                break  # the reference itself, not what it points to
+            base, proj = rv["pl"]["l"], list(rv["pl"]["p"]) + proj[1:]
+        elif rv["r"] == "agg" and rv.get("kind") in ("tuple",) and proj and isinstance(proj[0], dict) and "f" in proj[0] and proj[0]["f"] < len(rv["fields"]):
+            # a value carried out of a block in a tuple: `let (flag, action) = { ..; (flag, action) }`
+            src = op_place(rv["fields"][proj[0]["f"]])
+            if src is None:
+                break
+            base, proj = src["l"], list(src["p"]) + proj[1:]
+        elif rv["r"] == "agg" and rv.get("kind") == "closure" and proj and isinstance(proj[0], dict) and "f" in proj[0]:
+            names = body.facts.capture_names.get(rv.get("def"), [])
+            idx = proj[0]["f"]
+            if idx >= len(rv["fields"]) or idx >= len(names):
+                break
+            src = op_place(rv["fields"][idx])
+            if src is None:
+                break
+            base, proj = src["l"], list(src["p"]) + proj[1:]
+        else:
+            break
+        _depth += 1
+        if _depth > 40:
+            break
+    # drop a leading deref of a reference-typed parameter-less local? keep as is: `*` stays in the field list as '*'
+    fields = tuple(p["n"] if isinstance(p, dict) and "f" in p else ("*" if p == "*" else "?") for p in proj)
+    return base, fields
 
 
 def const_name(body, op, _depth=0):
